@@ -221,7 +221,7 @@ theorem word_last {w : Str} (hw : isWord w) : w.getLast? ≠ some '+' := by
 
 /-- the rendered C block, spelled out -/
 theorem cBlock_eq (b : BlockCfg) (os : List Out) (hne : os ≠ []) (hos : ∀ o ∈ os, OutOKc o)
-    (hen : isWord b.cfg.ename) :
+    (hen : isWord b.cfg.ename) (hwc : b.wrapC = true) :
     cBlock b os = [[], "//  ".toList ++ b.nsScope ++ b.cfg.ename, "enum ".toList ++ cEnumName b.cfg ++ " {".toList]
       ++ (bodiesC os).map (indentOf 1 ++ ·) ++ ["};".toList] := by
   have hm : os.map cMemberItem ≠ [] := by simpa using hne
@@ -230,7 +230,7 @@ theorem cBlock_eq (b : BlockCfg) (os : List Out) (hne : os ≠ []) (hos : ∀ o 
     rw [getLast?_append_ne hen.1]; exact word_last hen
   have hemp : os.isEmpty = false := by cases os <;> simp_all
   unfold cBlock cItems
-  simp only [hemp, Bool.false_eq_true, if_false, List.cons_append, List.nil_append]
+  simp only [hwc, Bool.not_true, hemp, Bool.false_eq_true, if_false, List.cons_append, List.nil_append]
   rw [stripLastChar_cons (by simp), stripLastChar_cons (by simp), stripLastChar_cons hm, strip_items os hne]
   simp only [List.cons_append]
   rw [renderItems]
@@ -248,9 +248,9 @@ theorem cBlock_eq (b : BlockCfg) (os : List Out) (hne : os ≠ []) (hos : ∀ o 
   simp [renderItems, indentOf]
 
 theorem parseBlockC_cBlock (b : BlockCfg) (os : List Out) (hne : os ≠ []) (hos : ∀ o ∈ os, OutOKc o)
-    (hen : isWord b.cfg.ename) (hcn : isIdent (cEnumName b.cfg) = true) :
+    (hen : isWord b.cfg.ename) (hcn : isIdent (cEnumName b.cfg) = true) (hwc : b.wrapC = true) :
     parseBlockC (cBlock b os) = some (header os) := by
-  rw [cBlock_eq b os hne hos hen]
+  rw [cBlock_eq b os hne hos hen hwc]
   have hX := isWord_of_isIdent hcn
   have hskip1 : isBlankOrCommentC ([] : Str) = true := rfl
   have hskip2 : isBlankOrCommentC ("//  ".toList ++ b.nsScope ++ b.cfg.ename) = true := by
@@ -328,7 +328,8 @@ theorem parseBlockF_members : ∀ os : List Out, (∀ o ∈ os, OutOKf o) →
     have := ih (fun x hx => h x (by simp [hx]))
     simp only [List.map_cons, parseBlockF, h1, Bool.false_eq_true, if_false, h2, this, fmodule]
 
-theorem fBlock_parse (b : BlockCfg) (os : List Out) (hos : ∀ o ∈ os, OutOKf o) (hen : isWord b.cfg.ename) :
+theorem fBlock_parse (b : BlockCfg) (os : List Out) (hos : ∀ o ∈ os, OutOKf o) (hen : isWord b.cfg.ename)
+    (hwf : b.wrapF = true) :
     parseBlockF (fBlock b os) = some (fmodule os) := by
   let cmt : Str := (if b.scopeWord.isEmpty then "!  enum ".toList
         else "!  enum ".toList ++ b.scopeWord ++ [' ']) ++ b.nsScope ++ b.cfg.ename
@@ -348,7 +349,7 @@ theorem fBlock_parse (b : BlockCfg) (os : List Out) (hos : ∀ o ∈ os, OutOKf 
     exact fMemberItem_plain (hos o ho)
   have hb : fBlock b os = [[], indentOf 1 ++ cmt] ++ (os.map fMemberItem).map (indentOf 1 ++ ·) := by
     unfold fBlock fItems
-    simp only [List.cons_append, List.nil_append]
+    simp only [hwf, Bool.not_true, Bool.false_eq_true, if_false, List.cons_append, List.nil_append]
     rw [renderItems]
     simp only [List.isEmpty_nil, if_true]
     rw [render_plain 1 hcmt]
